@@ -439,6 +439,12 @@ func (f *Footer) DecRef() {
 		f.SegmentLocs.DecRef()
 		f.SegmentLocs = nil
 		f.ss = nil
+		// Give up the ref-count held on each child footer, so that the
+		// segments of child collections get released, too.
+		for _, childFooter := range f.ChildFooters {
+			childFooter.DecRef()
+		}
+		f.ChildFooters = nil
 	}
 	f.m.Unlock()
 }
